@@ -1,10 +1,22 @@
 # C36 (list level) - unusable underlay addresses are never used (DESIGN.md section 4).
 # The wire-level multi-node part of C36 is a separate part built by the netsim harness.
 CHECK = {
-    "pkg": ".", "files": ["root/c36_test.go", "root/c38_test.go"], "run": "^TestC36",
-    "quick": {"scale": 1, "shards": 1, "timeout": 600},
-    "thorough": {"scale": 60, "shards": 8, "timeout": 1800},
-    "rule": "per case a LightHouse (lighthouse, or client with one configured lighthouse) is built from a generated config: "
+    "parts": [
+        {"pkg": ".", "files": ["root/c36_test.go", "root/c38_test.go"], "run": "^TestC36",
+         "quick": {"scale": 1, "shards": 1, "timeout": 600},
+         "thorough": {"scale": 60, "shards": 8, "timeout": 1800}},
+        # wire level: real nodes in a synctest bubble (engine E-netsim)
+        {"pkg": ".", "tags": "e2e_testing", "hide": ["interface_emit_test.go"],
+         "files": ["netsim/ns_core_test.go", "netsim/ns_world_test.go", "netsim/ns_history_test.go", "netsim/c36n_test.go"],
+         "run": "^TestC36_WireLevel", "env": {"GOMAXPROCS": "1", "GODEBUG": "asyncpreemptoff=1"},
+         "quick": {"scale": 1, "shards": 1, "timeout": 900},
+         "thorough": {"scale": 4, "shards": 12, "timeout": 2400}},
+    ],
+    "rule": "wire level: a lighthouse and 3-4 hosts that learn each other only through it, each host with a generated "
+            "remote_allow_list (single-host denies with inferred default, explicit default with a denied sub-range, denied /24 with "
+            "specific allows), punchy on; 15-60 step histories; every handshake, data and punch datagram a node emits must go to an "
+            "address its list allows (independent longest-prefix evaluation) and outside its own overlay networks; non-trivial there: "
+            "a world with a denied peer address and data on the wire. list level: per case a LightHouse (lighthouse, or client with one configured lighthouse) is built from a generated config: "
             "1-3 own overlay networks, valid remote_allow_list and remote_allow_ranges with nested lists, static hosts whose "
             "addresses are partly unusable, calculated remotes; then 1..25 steps: lighthouse answers / host updates / punch "
             "notifications with 0-30 addresses drawn from a pool of in-own-network, denied, allowed and IPv4-mapped "
@@ -22,5 +34,5 @@ CHECK = {
         "calculated remotes are never computed for static hosts (handshake manager call site)",
         "IPv4-mapped allow-list keys are not generated here (C38 finding v4-mapped-prefix)",
     ],
-    "engine": "E-model", "technique": "rapid histories inside a synctest bubble, invariant checked with an independent allow-list evaluator",
+    "engine": "E-model + E-netsim", "technique": "rapid histories inside a synctest bubble, invariant checked with an independent allow-list evaluator",
 }
